@@ -168,6 +168,10 @@ example : allocLayoutFor 64 ⟨64, 64⟩ = some ⟨128, 64⟩ ∧ allocLayoutFor
 example : fromRaw 64 (intoRaw 64 4096 (sliceLayout ⟨2, 2⟩ 5)) (sliceLayout ⟨2, 2⟩ 5) = some 4096 := by decide
 -- 32-bit: offset 4 for u8, 16 for align-16
 example : asPtr 32 4096 ⟨1, 1⟩ = 4100 ∧ asPtr 32 4096 ⟨16, 16⟩ = 4112 := by decide
+-- the hypotheses of the general theorems are satisfiable by non-trivial shapes
+example : (⟨64, 64⟩ : Layout).AlignIs 6 ∧ (⟨0, 32⟩ : Layout).AlignIs 5 ∧ (⟨3, 1⟩ : Layout).AlignIs 0 ∧ WordBits 64 3 ∧
+    (arcInnerLayout 64 ⟨64, 64⟩).1.align ∣ 4096 ∧ (sliceLayout ⟨2, 2⟩ 5).WF ∧
+    allocLayoutHeaderSlice 64 unitLayout ⟨2, 2⟩ 5 = some ⟨24, 8⟩ := by decide
 -- a wrong offset_of_data (mutant: `size_of::<usize>()`) breaks the round trip exactly for align > 8
 example : (4160 : Nat) - 8 ≠ 4096 := by decide
 
